@@ -609,6 +609,14 @@ def cases(tier):
                                                "segment": seg, "mode": mode,
                                                "cp0": cp0, "k": k,
                                                "fixed": fx})
+    # k given as a Python integer
+    for mk in POWER:
+        for seg in (0, 1):
+            for mode in ("abs-whole", "abs-interval", "relative"):
+                for k in (2, 3):
+                    cs.append({"kind": "grid", "model": mk, "noisy": False,
+                               "segment": seg, "mode": mode,
+                               "cp0": CP0S[0], "k": k})
     # no initial parameters given: the contact point is estimated
     for mk in POWER:
         for seg in (0, 1):
